@@ -209,6 +209,8 @@ def parseStep (pkts : List HistPkt) (st : String) : Option (PubKeyStep String ×
   | ["sk", "n"] => some (.setPubKey none, "set")
   | ["sk", a] => do let p ← a.toNat? >>= (pkts[·]?); some (.setPubKey (some p.key), "set")
   | ["ss", a] => do let p ← a.toNat? >>= (pkts[·]?); some (.setSignature p.sig, "set")
+  | ["cp"] => some (.other, "cp")
+  | ["vc", a] => do let _ ← a.toNat?; some (.other, "vc:" ++ a)
   | ["kw", a] => do let _ ← a.toNat? >>= (pkts[·]?); some (.other, "kw=ok")
   | ["pw"] => some (.other, "pw")
   | ["pp"] => some (.other, "pp=ok")
@@ -228,7 +230,15 @@ def pubkeyHist (args : List String) (obs : String) : Verdict :=
           | some pi, some pj => pemText pi.key == .ok h && pj.sig == s
           | _, _ => false
       let v0 : PubKeyVal String := { expiresAt := "z", pubKey := none, signature := [] }
-      let (_, outs) := steps.foldl (init := (v0, ([] : List String))) fun (v, acc) (st, tag) =>
+      -- a copy is a value: `cp` appends the current fields to `kept`, `vc:i` verifies those fields
+      let (_, _, outs) := steps.foldl (init := (v0, ([] : List (PubKeyVal String)), ([] : List String))) fun (v, kept, acc) (st, tag) =>
+        if tag == "cp" then (v, kept ++ [v], acc ++ ["cp"]) else
+        if tag.startsWith "vc:" then
+          match (tag.drop 3).toString.toNat? >>= (kept[·]?) with
+          | some k => (v, kept, acc ++ [s!"vc={showBool (pubKeyVerifyNow (Key := Unit) (fun t => t) rsa () labelExpired k)}@{identOf pkts k}"])
+          | none => (v, kept, acc ++ ["vc=?"])
+        else
+        let (v', acc') : PubKeyVal String × List String :=
         match st with
         | .verify =>
           let r := pubKeyVerifyNow (Key := Unit) (fun t => t) rsa () labelExpired v
@@ -245,6 +255,7 @@ def pubkeyHist (args : List String) (obs : String) : Verdict :=
               | none => "vs=?"
             else tag
           (pubKeyApply v st, acc ++ [out])
+        (v', kept, acc')
       let model := ",".intercalate outs
       -- oracle, from the observation alone: a `true` needs current fields that are unexpired and a (key, signature)
       -- pair for which RSA verification under the services key succeeds
@@ -259,12 +270,25 @@ def pubkeyHist (args : List String) (obs : String) : Verdict :=
               | none => true
             | _, _, _ => true
           | _ => true
+        else if item.startsWith "vc=" && (item.splitOn "/changed").length > 1 then true   -- a kept copy changed
+        else if item.startsWith "vc=true@" then
+          match ((item.drop 8).toString).splitOn "." with
+          | [e, k, s] =>
+            match e.toNat?, k.toNat?, s.toNat? with
+            | some ei, some ki, some si =>
+              match pkts[ei]? with
+              | some pe => labelExpired pe.label || !(pairs.contains (ki, si))
+              | none => true
+            | _, _, _ => true
+          | _ => true
         else if item.startsWith "vs=true#" then
           match ((item.drop 8).toString).toNat? with
           | some i => !(pairs.contains (i, i))
           | none => true
         else false
-      { model, spec := bad.map fun item => s!"accepted what does not verify under the services key fixed at the start: {item}" }
+      { model, spec := bad.map fun item =>
+          if (item.splitOn "/changed").length > 1 then s!"a kept copy of the value no longer holds what it held when it was taken: {item}"
+          else s!"accepted what does not verify under the services key fixed at the start: {item}" }
     | _, _ => { model := "bad-arg" }
   | _, _, _ => { model := "bad-arg" }
 
@@ -294,8 +318,11 @@ def authHs (args : List String) (obs : String) : Verdict :=
     let toks := obs.splitOn " "
     let spec : Option String :=
       match kv toks "hash" with
-      | none => none
+      | none =>
+        if toks.head? == some "ok" then some "the server accepted the login without presenting this handshake's session hash to the session server"
+        else none
       | some h =>
+        if (toks.filter (·.startsWith "hash=")).length > 1 then some "more than one session-server request for one handshake" else
         if dec == "err" then none          -- the client chose no secret: the property compares nothing here
         else if allZero d then none
         else
@@ -305,6 +332,21 @@ def authHs (args : List String) (obs : String) : Verdict :=
           else none
     { model, spec }
   | _, _, _, _, _ => { model := "bad-arg" }
+
+/-- `auth.hs2 kseed= kbits= pattern= n=<N> key=<hex> secret<i>= tok<i>= dec<i>= sha1<i>= client<i>= name<i>= => <obs0>;<obs1>;…`:
+    N handshakes in one process (equal letters of `pattern` = equal player names); each is judged like `auth.hs` -/
+def authHs2 (args : List String) (obs : String) : Verdict :=
+  match (kv args "n").bind String.toNat?, kv args "key" with
+  | some n, some key =>
+    let parts := obs.splitOn ";"
+    let vs := (List.range n).map fun i =>
+      let get := fun (k : String) => (kv args s!"{k}{i}").getD "?"
+      authHs ["mode=ok", "http=ok", s!"key={key}", s!"tok={get "tok"}", s!"dec={get "dec"}", s!"sha1={get "sha1"}",
+              s!"client={get "client"}"] (parts.getD i "missing")
+    { model := ";".intercalate (vs.map (·.model)),
+      spec := if parts.length != n then some "wrong number of handshake observations"
+              else (vs.zipIdx.findSome? fun (v, i) => v.spec.map fun r => s!"handshake {i}: {r}") }
+  | _, _ => { model := "bad-arg" }
 
 /-! ### bot.hs — the client side of the handshake
 
@@ -354,6 +396,7 @@ def handle (op : String) (args : List String) (obs : String) : Option Verdict :=
   | "lb.writes" => some (lbWrites args obs)
   | "pubkey.hist" => some (pubkeyHist args obs)
   | "auth.hs" => some (authHs args obs)
+  | "auth.hs2" => some (authHs2 args obs)
   | "bot.hs" => some (botHs args obs)
   | _ => none
 
